@@ -305,6 +305,10 @@ store_harness!(c02_store_lookup, OP_GETMUT, 0, None, false);
 store_harness!(c04_em_store_insert, OP_INSERT, 2, Some(true), true);
 store_harness!(c04_em_store_update, OP_UPDATE, 2, Some(true), true);
 store_harness!(c04_em_store_remove, OP_REMOVE, 2, Some(true), true);
+// C04: updates / inserts addressed at entries WITH a TTL, expired-but-unswept ones included (the
+// expiry index is left empty here; its invariant is the subject of the _em_ variants)
+store_harness!(c04_store_update_ttl, OP_UPDATE, 2, Some(true), false);
+store_harness!(c04_store_insert_ttl, OP_INSERT, 2, Some(true), false);
 // C03: visibility by time
 store_harness!(c03_store_lookup_ttl, OP_GETMUT, 2, None, false);
 // C09: vetoed writes
@@ -560,40 +564,5 @@ pub(crate) mod storerec {
             let v: V = std::mem::transmute_copy::<u64, V>(&tag);
             Ok(Some(StoreItem { key: *key, conflict: nd::any_u64(), value: SharedValue::new(v), expiration: th::time_at(clock::get(), Duration::ZERO) }))
         }
-    }
-}
-
-harness! {
-    [kani::unwind(5)]
-    fn probe_iter() {
-        let mut m: crate::verif_env::Map<u64, u64> = crate::verif_env::hm_from([None, None, None]);
-        if nd::any_bool() {
-            m.insert(nd::any_u64(), 7);
-        }
-        let mut calls = 0u32;
-        let v: Vec<u64> = m
-            .iter()
-            .filter_map(|(k, _)| {
-                calls += 1;
-                probe_heavy(*k)
-            })
-            .collect();
-        vassert!(calls <= 1, "closure called at most once");
-        vcover!(v.len() == 1, "one");
-        std::mem::forget(v);
-    }
-}
-#[inline(never)]
-fn probe_heavy(k: u64) -> Option<u64> {
-    let mut i = 0;
-    let mut acc = 0u64;
-    while i < 2 {
-        acc = acc.wrapping_add(k);
-        i += 1;
-    }
-    if k > 5 && acc != 1 {
-        Some(k)
-    } else {
-        None
     }
 }
